@@ -323,9 +323,10 @@ Definition g_add_branch (g : gstate) (s : string) (ends : list string) (skip_dat
     else if negb (has_node g s) && negb (String.eqb s START) then fail g EBranchStartUnknown
     else if Nat.eqb (List.length ends) 1 then fail g EBranchOne
     else
-      (* a pass-through start node whose type is still unknown takes the condition's type *)
+      (* a pass-through start node whose type is still unknown takes the condition's type,
+         which is passed along the edges waiting for it at once (d47d56e) *)
       let g1 := match alist_get s (g_nodes g) with
-                | Some n => if nkind_eqb (n_kind n) NPass && negb (n_out n) then set_typed s g else g
+                | Some n => if nkind_eqb (n_kind n) NPass && negb (n_out n) then update_pending (set_typed s g) else g
                 | None => g
                 end in
       let g2 := set_h_prebranch (g_h_prebranch g1 ++ [s]) g1 in
